@@ -18,6 +18,7 @@ package path
 //@     invariant [C16] len(acc) == #i && (forall k int :: 0 <= k && k < #i ==> acc[k] == buildF(source, v.body[k]))
 
 //@ func ParsePath(path string) (PropertyPath, error)
+//@   ensures-assumed [C16:A-PURE] result1 == pathErrF(path)
 //@   verify [C07,C02]
 //@   ensures [C16:empty-is-null-path] path == "" ==> (result1 == nil && is(result0, path.NullPath) && result0.(path.NullPath).source == "")
 //@   ensures [C16:error-or-path] path != "" ==> (result1 != nil ==> result0 == nil)
